@@ -3,6 +3,7 @@ package main
 import (
 	"fmt"
 	"math/rand"
+	"net"
 	"sort"
 	"strings"
 	"sync"
@@ -103,7 +104,7 @@ type c06Stream struct{}
 func (c06Stream) Name() string               { return "c06" }
 func (c06Stream) CaseTimeout() time.Duration { return 60 * time.Second }
 func (c06Stream) Rule() string {
-	return "K simultaneous connections (1..8; plain / TLS / StartTLS), each pipelining N requests (1..256) of a random mix of the six dispatched operations in one write; every handler blocks until ALL handlers of ALL connections have started (rendezvous), so the scenario only completes if no dispatch waits for an earlier handler; oracle: the rendezvous completes, and on every connection Request.ID is 1..N in arrival (message id) order and ConnectionID is constant; the hook trace of every connection is replayed through the Lean connection automaton; non-trivial = N >= 2, distinct by scenario"
+	return "K simultaneous connections (1..8; plain / TLS / StartTLS), each pipelining N requests (1..256) of a random mix of the six dispatched operations in one write, routed by per-operation routes or (one case in three) all by the default route; every handler blocks until ALL handlers of ALL connections have started (rendezvous), so the scenario only completes if no dispatch waits for an earlier handler; oracle: the rendezvous completes, and on every connection Request.ID is 1..N in arrival (message id) order and ConnectionID is constant; the hook trace of every connection is replayed through the Lean connection automaton; non-trivial = N >= 2, distinct by scenario"
 }
 
 func (c06Stream) Generate(rng *rand.Rand, n int, thorough bool) []Case {
@@ -116,7 +117,8 @@ func (c06Stream) Generate(rng *rand.Rand, n int, thorough bool) []Case {
 			np = []int{65, 100, 129, 200, 255, 256}[rng.Intn(6)]
 			k = 1 + rng.Intn(2)
 		}
-		cs = append(cs, Case{Line: fmt.Sprintf("c06 conns=%d n=%d mode=%s seed=%d", k, np, []string{"plain", "plain", "tls", "starttls"}[rng.Intn(4)], rng.Intn(1<<30)), Kind: "pipeline"})
+		cs = append(cs, Case{Line: fmt.Sprintf("c06 conns=%d n=%d mode=%s seed=%d routes=%s", k, np, []string{"plain", "plain", "tls", "starttls"}[rng.Intn(4)], rng.Intn(1<<30),
+			[]string{"all", "all", "default"}[rng.Intn(3)]), Kind: "pipeline"})
 	}
 	return cs
 }
@@ -136,7 +138,14 @@ func (c06Stream) Impl(c Case) string {
 		<-released
 		answer(w, r)
 	}
-	sut, err := startServer(allRoutes(h, startTLSHandler(srvTLS, 0, 0), nil), serverTLSFor(mode), nil)
+	mux := allRoutes(h, startTLSHandler(srvTLS, 0, 0), nil)
+	if p["routes"] == "default" {
+		// every operation is served by the default route (only StartTLS has a route of its own)
+		mux, _ = gldap.NewMux()
+		_ = mux.ExtendedOperation(startTLSHandler(srvTLS, 0, 0), gldap.ExtendedOperationStartTLS)
+		_ = mux.DefaultRoute(h)
+	}
+	sut, err := startServer(mux, serverTLSFor(mode), nil)
 	if err != nil {
 		return "harness-error start: " + err.Error()
 	}
@@ -249,14 +258,18 @@ type c10Stream struct{}
 func (c10Stream) Name() string               { return "c10" }
 func (c10Stream) CaseTimeout() time.Duration { return 60 * time.Second }
 func (c10Stream) Rule() string {
-	return "pipelines <pre requests> Unbind <post requests> written in ONE TCP segment (pre 0..8, post 0..8 of the six dispatched operations), with and without an unbind route, earlier handlers blocked until released or finishing at once, plain / TLS / StartTLS; oracle: the unbind handler runs exactly once iff registered, gldap sends no response to the unbind, no handler ever runs for a post request, the client gets exactly the pre responses and then EOF, and the socket is not closed while earlier handlers are still blocked; trace replayed through the connection automaton; non-trivial = post >= 1, distinct by scenario"
+	return "pipelines <pre requests> Unbind <post requests> written in ONE TCP segment (pre 0..8, post 0..8 of the six dispatched operations), with and without an unbind route, earlier handlers blocked until released (30 ms, occasionally 2.5 s, after the unbind was read) or finishing at once, plain / TLS / StartTLS; oracle: the unbind handler runs exactly once iff registered, gldap sends no response to the unbind, no handler ever runs for a post request, the client gets exactly the pre responses and then EOF, and the socket is not closed while earlier handlers are still blocked; trace replayed through the connection automaton; non-trivial = post >= 1, distinct by scenario"
 }
 
 func (c10Stream) Generate(rng *rand.Rand, n int, thorough bool) []Case {
 	var cs []Case
 	for len(cs) < n {
-		cs = append(cs, Case{Line: fmt.Sprintf("c10 pre=%d post=%d route=%d block=%d mode=%s seed=%d", rng.Intn(9), rng.Intn(9), rng.Intn(2), rng.Intn(2),
-			[]string{"plain", "plain", "tls", "starttls"}[rng.Intn(4)], rng.Intn(1<<30)), Kind: "unbind"})
+		hold := 30
+		if rng.Intn(12) == 0 {
+			hold = 2500 // handlers that stay busy for seconds after the unbind was read
+		}
+		cs = append(cs, Case{Line: fmt.Sprintf("c10 pre=%d post=%d route=%d block=%d mode=%s seed=%d hold=%d", rng.Intn(9), rng.Intn(9), rng.Intn(2), rng.Intn(2),
+			[]string{"plain", "plain", "tls", "starttls"}[rng.Intn(4)], rng.Intn(1<<30), hold), Kind: "unbind"})
 	}
 	return cs
 }
@@ -313,10 +326,20 @@ func (c10Stream) Impl(c Case) string {
 		verdict = "unbind was never read"
 	}
 	if verdict == "ok" && p["block"] == "1" && pre > 0 {
-		// earlier handlers still blocked: the socket must stay open
-		time.Sleep(30 * time.Millisecond)
+		// earlier handlers still blocked: the socket must stay open, however long they take
+		hold := atoi(p["hold"])
+		if hold == 0 {
+			hold = 30
+		}
+		time.Sleep(time.Duration(hold) * time.Millisecond)
 		if sut.tr.Count("conn.netclose", conn) > 0 {
 			verdict = "socket closed while earlier handlers are still running"
+		} else if _, err := cl.readFrame(20 * time.Millisecond); err != nil {
+			if ne, ok := err.(net.Error); !ok || !ne.Timeout() {
+				verdict = "socket closed while earlier handlers are still running (client saw " + err.Error() + ")"
+			}
+		} else {
+			verdict = "a response arrived while every earlier handler is still blocked"
 		}
 	}
 	close(released)
